@@ -2,6 +2,8 @@ import math
 from typing import Any, BinaryIO
 import sys
 
+import numpy as np
+
 
 def round_up(value: int, base: int) -> int:
     """Round up `value` to the next multiple of `base`."""
@@ -23,6 +25,18 @@ def write_padding(fp: BinaryIO, n: int, max_padding=1024):
     if n == 0:
         return
     fp.write(b"\x00" * n)
+
+
+def int64_to_int32(values: Any) -> np.ndarray:
+    """
+    Convert int64 value(s) to an int32 array, saturating out-of-range values.
+
+    `ndarray.astype(np.int32)` wraps values that are out of range (eg.
+    `2**63 - 1` becomes `-1`). RTen saturates instead when it loads int64
+    values from an ONNX model.
+    """
+    i32 = np.iinfo(np.int32)
+    return np.array(values, dtype=np.int64).clip(i32.min, i32.max).astype(np.int32)
 
 
 EMITTED_WARNINGS: set[str] = set()
